@@ -601,8 +601,7 @@ Proof.
   - inversion H; subst; clear H. unfold with_asg. destruct im; repeat split; try assumption; apply asg_ok_none.
   - destruct (slot t im) as [old|] eqn:S; [|inversion H; subst; repeat split; assumption].
     assert (Ha : asg_ok (t_pols t)
-                   (Some {| as_disp := as_disp old;
-                            as_pols := filter (fun p => negb (existsb (N.eqb (p_name p)) names)) (as_pols old) |})).
+                   (Some (without_policies old names))).
     { intros x p Ex Hp. inversion Ex; subst. cbn [as_pols] in Hp. apply filter_In in Hp.
       unfold slot in S. destruct im; [apply (Hi old p S (proj1 Hp))|apply (He old p S (proj1 Hp))]. }
     inversion H; subst; clear H. unfold with_asg. destruct im; repeat split; assumption.
